@@ -56,7 +56,7 @@ func (fr *Frame) callModifies(ins ssa.CallInstruction) ([]string, bool) {
 			et := cc.Args[0].Type().Underlying().(*types.Slice).Elem()
 			return []string{vc.arrComp(et)}, true
 		case "delete":
-			return []string{vc.mapComp(cc.Args[0].Type().Underlying().(*types.Map))}, true
+			return []string{vc.mapComp(cc.Args[0].Type().Underlying().(*types.Map)), vc.mapLenComp()}, true
 		case "close":
 			vc.comp("$chclosed", "(Array Int Bool)")
 			return []string{"$chclosed"}, true
@@ -628,7 +628,7 @@ func (fr *Frame) resultPtrFact(t Term, st *State) {
 		return
 	}
 	switch t.T.Underlying().(type) {
-	case *types.Pointer:
+	case *types.Pointer, *types.Chan, *types.Map:
 		vc.assumeIf(fr.curReach, fmt.Sprintf("(< %s %s)", t.S, vc.get(st, vc.allocComp())))
 	case *types.Slice:
 		vc.assumeIf(fr.curReach, fmt.Sprintf("(< (sl_ref %s) %s)", t.S, vc.get(st, vc.allocComp())))
@@ -811,6 +811,10 @@ func (fr *Frame) runDefers(st *State, panicking bool) {
 		}
 		cc := d.instr.Common()
 		if b, ok := cc.Value.(*ssa.Builtin); ok {
+			if b.Name() == "close" && len(cc.Args) == 1 {
+				fr.closeChan(cc.Args[0], st, d.instr.Pos())
+				continue
+			}
 			vc.unsupportedf("deferred builtin %s", b.Name())
 			continue
 		}
@@ -1026,8 +1030,11 @@ func (fr *Frame) execBuiltin(ins *ssa.Call, b *ssa.Builtin, st *State) {
 		case *types.Basic:
 			fr.bind(ins, vc.fromInt(fmt.Sprintf("(str_len %s)", x.S)))
 		case *types.Map:
-			fr.bind(ins, vc.fromInt(fmt.Sprintf("(map_len %s %s)", vc.get(st, vc.mapsComp()), x.S)))
+			mt := args[0].Type().Underlying().(*types.Map)
+			fr.bind(ins, vc.fromInt(fmt.Sprintf("(select %s %s)", vc.get(st, vc.mapLenComp()), x.S)))
 			vc.assumeIf(fr.curReach, vc.ile(vc.ilit(0), fr.vals[ins].S))
+			// a map is empty iff its cardinality is 0
+			vc.assumeIf(fr.curReach, fmt.Sprintf("(= (= (select %s %s) 0) (= (select %s %s) %s))", vc.get(st, vc.mapLenComp()), x.S, vc.get(st, vc.mapComp(mt)), x.S, vc.emptyMap(mt)))
 		case *types.Chan:
 			fr.bindFresh(ins)
 			vc.assumeIf(fr.curReach, vc.ile(vc.ilit(0), fr.vals[ins].S))
